@@ -170,12 +170,12 @@ let () =
              let (i, q) = f.sf_pair and s = f.sf_sym in
              let si = int_of_n s in
              if si = 997 then
-               Printf.printf "mismatch start - %d | %s | %s |\n" (int_of_nat q) (show_stree (to_stree tbl (start_tree p))) (show_tree (start_tree_of d d.d_start_acts))
+               Printf.printf "mismatch start - %d ### %s ### %s ###\n" (int_of_nat q) (show_stree (to_stree tbl (start_tree p))) (show_tree (start_tree_of d d.d_start_acts))
              else begin
                let opts = if si <= 256 then String.concat " || " (List.map show_stree (ref_spec tbl i s)) else "-" in
                let t2 = if si <= 256 then show_tree (step_tree d q s) else "-" in
                let cfgs = (match List.nth_opt tbl (int_of_nat i) with Some k -> show_cfg k | None -> "?") in
-               Printf.printf "mismatch %d %d %d %s | %s | %s |" (int_of_nat i) (int_of_nat q) si cfgs opts t2;
+               Printf.printf "mismatch %d %d %d %s ### %s ### %s ###" (int_of_nat i) (int_of_nat q) si cfgs opts t2;
                List.iter (fun ((c, p), s) -> Printf.printf " %s<%s@%d" (show_pair c) (show_pair p) (int_of_n s)) f.sf_parents;
                print_newline ()
              end)
